@@ -1,4 +1,6 @@
 """C02 - content header and Basic.Properties survive encode-then-decode."""
+import os
+
 from .. import codec
 from .. import hdrlayout as H
 from .. import interp as I
@@ -28,6 +30,11 @@ RULES = {
              'defaults (None; cluster id empty string) and assigns only '
              'under a flag',
     'C02.T': 'Pair(E, D) for every wire type used by a property',
+    'C02.R': 'composed round trip by rewriting: with the encoder\'s residual '
+             'output substituted for the buffer, body size, class id, '
+             'consumed count and channel come back, every property k '
+             'rewrites to "value if present else unset", and all path '
+             'conditions of the successful decode hold',
 }
 
 
@@ -250,6 +257,10 @@ def run(chk, ctx):
            '2^16, so the signed/unsigned reading cannot matter' %
            (sorted(flag_words),), site=site_u)
     chk.floor('C02.U', 14, 'properties on the decode side')
+    # ---- composed round trip (thorough tier: the 14 optional fields make
+    # the rewriting walk expensive)
+    if ctx.tier == 'thorough' or os.environ.get('VERIF_C02R') == '1':
+        composed(chk, ctx, e, o, ob, props, slots, data, site_u)
     # fresh defaults
     hci = prog.cls('header.ContentHeader')
     it2 = ctx.interp()
@@ -270,3 +281,46 @@ def run(chk, ctx):
     chk.assume('header tables round-trip as decided by C03; timestamps as '
                'decided by C15')
     chk.units['properties'] = len(slots)
+
+
+def composed(chk, ctx, e, o, ob, props, slots, data, site_u):
+    from .. import wire
+    ax = wire.build_axioms(ctx)
+    rw = wire.Rewriter(data, e['term'], ax, T.Knowledge())
+    n, ch, _ = o.value
+    total = rw.length(e['term'], frozenset())
+    n2, ch2 = rw.rw(n), rw.rw(ch)
+    bs = rw.rw(ob.attrs.get('body_size'))
+    cid = rw.rw(ob.attrs.get('class_id'))
+    wgt = rw.rw(ob.attrs.get('weight'))
+    chk.ob('C02.R', 'fixed part and envelope',
+           T.sub(n2, total) == 0 and ch2 is Sym('param', 'channel_id') and
+           bs is Sym('field', 'body_size') and cid == 60 and wgt == 0,
+           'consumed %s of %s, channel %s, body_size %s, class id %s, '
+           'weight %s' % (T.show(n2)[:40], T.show(total)[:40],
+                          T.show(ch2)[:30], T.show(bs)[:30], cid, wgt),
+           site=site_u)
+    badc = []
+    for a in o.state.kn.atoms:
+        if isinstance(a, Sym):
+            v = rw.rw(a)
+            if v is not True:
+                badc.append('%s -> %s' % (T.show(a)[:60], T.show(v)[:60]))
+    chk.ob('C02.R', 'acceptance', not badc,
+           'all %d path conditions of the successful decode hold on the '
+           'encoder\'s own output' % len(o.state.kn.atoms) if not badc else
+           'not established: %s' % '; '.join(badc[:2]), site=site_u)
+    wrong = []
+    for name in slots:
+        got = rw.rw(props.attrs.get(name))
+        f_ = Sym('field', name)
+        present = T.and_(T.compare('isnot', f_, None),
+                         T.compare('ne', f_, ''))
+        want = T.cond(present, f_, '' if name == 'cluster_id' else None)
+        if got is not want:
+            wrong.append('%s -> %s' % (name, T.show(got)[:90]))
+    chk.ob('C02.R', 'property values', not wrong,
+           'each of the %d properties rewrites to "the value if it is set '
+           '(not None, not empty string), else unset"' % len(slots)
+           if not wrong else 'does not come back: %s' %
+           '; '.join(wrong[:3]), site=site_u)
